@@ -232,7 +232,12 @@ func credScenario() hx.Scenario {
 				r := client.Raw("cred", "GET", "/2021-04-23/credentials", h, nil)
 				var m map[string]any
 				json.Unmarshal(r.Body, &m)
-				o.calls = append(o.calls, fmt.Sprintf("%s:%d:%v", label, r.Status, m["AccessKeyId"]))
+				key := fmt.Sprint(m["AccessKeyId"])
+				if r.Status == 200 {
+					// the whole credential set, each part in its place
+					key = fmt.Sprintf("%v/%v/%v", m["AccessKeyId"], m["SecretAccessKey"], m["Token"])
+				}
+				o.calls = append(o.calls, fmt.Sprintf("%s:%d:%v", label, r.Status, key))
 			}
 			variants := func(tag string) {
 				get(token, tag+"-exact")
@@ -278,7 +283,7 @@ func credScenario() hx.Scenario {
 					failf("env-has-keys:"+k, "the runtime's environment contains %s in snapshot mode", k)
 				}
 			}
-			wantKey := map[string]string{"init": "K0", "restore1": "K1", "restore2": "K2"}
+			wantKey := map[string]string{"init": "K0/S0/T0", "restore1": "K1/S1/T1", "restore2": "K2/S2/T2"}
 			for _, c := range o.calls {
 				p := strings.SplitN(c, ":", 3)
 				tag := strings.SplitN(p[0], "-", 2)
